@@ -29,7 +29,10 @@ FLOORS = {"quick": {"probes": 100000, "connected_cases": 250, "faults": 300, "re
 
 def cases(tier, seed, prep=None):
     n = 330 if tier == "quick" else 10000
-    return [{"seed": seed * 1000003 + 1100000 + i, "relay": i % 4 == 1, "nfaults": [0, 1, 1, 2, 3][i % 5]} for i in range(n)]
+    out = [{"seed": seed * 1000003 + 1100000 + i, "relay": i % 4 == 1, "nfaults": [0, 1, 1, 2, 3][i % 5]} for i in range(n)]
+    # long-lived sessions: many generations
+    out += [{"seed": seed * 1000003 + 1150000 + i, "relay": i % 4 == 1, "nfaults": [6, 10, 16][i % 3]} for i in range(15 if tier == "quick" else 400)]
+    return out
 
 
 def run_case(spec):
@@ -114,7 +117,7 @@ def run_case(spec):
                         elif probes["selected_at"].get(far, world.step) > world.step:
                             probes["viol"].append(("C11/follower-selected-before-leader", ""))
     sch.hook = hook
-    faults = {"done": 0, "skipped": 0, "kinds": []}
+    faults = {"done": 0, "skipped": 0, "kinds": [], "retries": 0}
 
     def fault(kind):
         link = dp.selected_link()
@@ -132,6 +135,12 @@ def run_case(spec):
             # through the relay there is no single link with both ends selected: cut a selected end's link
             ends = dp.selected_ends("A") + dp.selected_ends("B")
             if not ends:
+                if spec["nfaults"] >= 6 and faults["retries"] < 400:
+                    # long-lived sessions: wait for the next generation instead of skipping the fault
+                    faults["retries"] += 1
+                    sch.faults.append((world.step + rng.randint(5, 25), lambda: fault(kind), "fault (retry)"))
+                    sch.faults.sort(key=lambda f: f[0])
+                    return
                 faults["skipped"] += 1
                 return
             link = ends[0].link
@@ -153,7 +162,7 @@ def run_case(spec):
         last = at
         sch.faults.append((at, (lambda k=rng.choice(["both", "both", "leader-first", "follower-first", "candidate"]): fault(k)), "fault"))
     sch.faults.sort(key=lambda f: f[0])
-    sch.run(1200)
+    sch.run(1200 + (150 * spec["nfaults"] if spec["nfaults"] >= 6 else 0))
     end = sch.drain(600.0, 60000, until=lambda: dp.both_connected() and all(started.values()))
     viol = []
 
